@@ -55,7 +55,7 @@ DB = {
         "ss_sets": [["Calcite", "Strontianite"], ["Anhydrite", "Celestite", "Barite"], ["Barite", "Celestite"],
                     ["Calcite", "Strontianite", "Witherite"], ["Aragonite", "Strontianite"], ["Halite", "Sylvite"],
                     ["Gypsum", "Celestite"]],
-        "exch": {"NaX": 1, "KX": 1, "CaX2": 2, "MgX2": 2, "SrX2": 2},
+        "exch": {"NaX": 1, "KX": 1, "CaX2": 2, "MgX2": 2, "SrX2": 2, "HX": 1},
     },
     "wateq4f.dat": {
         "cations": {"Na": (1, 0.5), "K": (1, 0.2), "Ca": (2, 0.05), "Mg": (2, 0.05), "Sr": (2, 0.002), "Ba": (2, 1e-5)},
@@ -73,7 +73,7 @@ DB = {
         "gas": ["CO2(g)", "N2(g)", "O2(g)", "H2O(g)"],
         "ss_sets": [["Calcite", "Strontianite"], ["Anhydrite", "Celestite", "Barite"], ["Barite", "Celestite"],
                     ["Calcite", "Magnesite"], ["Aragonite", "Strontianite", "Witherite"]],
-        "exch": {"NaX": 1, "KX": 1, "CaX2": 2, "MgX2": 2, "SrX2": 2},
+        "exch": {"NaX": 1, "KX": 1, "CaX2": 2, "MgX2": 2, "SrX2": 2, "HX": 1},
     },
     "pitzer.dat": {
         "cations": {"Na": (1, 2.0), "K": (1, 0.5), "Ca": (2, 0.1), "Mg": (2, 0.5), "Sr": (2, 0.002), "Ba": (2, 1e-5)},
@@ -92,7 +92,7 @@ DB = {
         "gas": ["CO2(g)", "H2O(g)", "Ntg(g)", "Mtg(g)", "Oxg(g)"],
         "ss_sets": [["Anhydrite", "Celestite", "Barite"], ["Barite", "Celestite"], ["Halite", "Sylvite"],
                     ["Calcite", "Magnesite"], ["Epsomite", "Hexahydrite"]],
-        "exch": {"NaX": 1, "KX": 1, "CaX2": 2, "MgX2": 2, "SrX2": 2},
+        "exch": {"NaX": 1, "KX": 1, "CaX2": 2, "MgX2": 2, "SrX2": 2, "HX": 1},
     },
 }
 
@@ -128,6 +128,13 @@ Fix_pH
  H+ = H+
  log_k 0
 """
+
+# proton exchange: wateq4f.dat defines HX; phreeqc.dat carries the same definition commented out, pitzer.dat has none.
+# The generated input defines it (documented EXCHANGE_SPECIES syntax) so that exchangers hold H - otherwise the H/O
+# branches of the exchanger bookkeeping are never exercised by these databases.
+EXTRA_EXCHANGE = {"phreeqc.dat": "EXCHANGE_SPECIES\n H+ + X- = HX\n -log_k 1.0\n -gamma 9.0 0",
+                  "pitzer.dat": "EXCHANGE_SPECIES\n H+ + X- = HX\n -log_k 1.0",
+                  "wateq4f.dat": ""}
 
 KNOBS = "KNOBS\n -convergence_tolerance 1e-12\n -iterations 300"
 
@@ -332,7 +339,7 @@ def exch(draw, db, eq_sol):
     if draw(st.booleans()):
         return {"equil": eq_sol, "X": draw(cg.logu(1e-4, 1.0, 3))}
     names = _some(draw, sorted(cfg["exch"]), 1, 3)
-    return {"equil": None, "species": [[nm, draw(cg.logu(1e-4, 0.5, 3))] for nm in names]}
+    return {"equil": None, "species": [[nm, draw(cg.logu(1e-4, 0.05 if nm == "HX" else 0.5, 3))] for nm in names]}
 
 
 def render_exch(d, n):
@@ -494,7 +501,11 @@ def kin(draw, db, uptake_ok=("H2O",)):
         else:
             parm = draw(cg.logu(1e-10, 1e-5, 2)) * (100.0 if draw(st.integers(0, 4)) == 0 else 1.0)
         comps.append({"rate": r, "formula": f, "m0": m0, "m": m, "parm": float("%.3g" % parm)})
-    d = {"comps": comps, "cvode": draw(st.booleans())}
+    # rates that do not fade out as m -> 0 and would consume more than the reactant holds are integrated with the
+    # Runge-Kutta method only (it clips the reaction at m = 0); CVODE on such a discontinuous rate does not return or
+    # crashes on the unchanged tree (seen with Fe + exchanger + 74 mol of Gypsum requested from 0.48 mol)
+    overshoot = any(c["rate"] in ("r_const", "r_unguarded") and c["parm"] * top > 0.5 * c["m"] for c in comps)
+    d = {"comps": comps, "cvode": draw(st.booleans()) and not overshoot}
     if draw(st.booleans()):
         k = draw(st.integers(1, 3))
         d["times"] = [float("%.3g" % (top * (i + 1) / k)) for i in range(k)]
@@ -631,6 +642,8 @@ def plan(case, punch=None):
     simulation of every step"""
     db = case["db"]
     sim0 = [knobs_text(case), RATES_TEXT.rstrip(), EXTRA_PHASES.rstrip()]
+    if EXTRA_EXCHANGE.get(db):
+        sim0.append(EXTRA_EXCHANGE[db])
     for s in case["sols"]:
         sim0.append(render_solution(s))
     sim0.append("END")
